@@ -40,8 +40,10 @@ def ft_sh_phase_screen(r0, N, delta, L0, l0, FFT=None, seed=None):
     R = numpy.random.default_rng(seed)
 
     D = N * delta
-    # high-frequency screen from FFT method
-    phs_hi = ft_phase_screen(r0, N, delta, L0, l0, FFT, seed=seed)
+    # high-frequency screen from FFT method; it draws from the same generator, so that the
+    # sub-harmonic coefficients below are independent of the high-frequency ones (re-seeding a
+    # second generator with `seed` made them equal to the first 54 high-frequency draws)
+    phs_hi = ft_phase_screen(r0, N, delta, L0, l0, FFT, seed=R)
 
     # spatial grid [m]
     coords = numpy.arange(-N/2,N/2)*delta
